@@ -53,6 +53,13 @@ func judge(c Case, w *vkit.W) {
 		if !bytes.Equal(b, want) {
 			w.Fail(c, "layout", fmt.Sprintf("MarshalBinary(%d-%d-%d) = %v, want %v (version 1, big-endian int32 year, month, day)", c.Y, c.M, c.D, b, want))
 		}
+		// the result belongs to the caller: scribbling over it must not influence later calls
+		for i := range b {
+			b[i] ^= 0xFF
+		}
+		if b2, err := dt.MarshalBinary(); err != nil || !bytes.Equal(b2, want) {
+			w.Fail(c, "marshal-result-shared", fmt.Sprintf("MarshalBinary(%d-%d-%d) after the caller overwrote an earlier result = %v, %v; want %v", c.Y, c.M, c.D, b2, err, want))
+		}
 		back := sentinel
 		if err := back.UnmarshalBinary(want); err != nil {
 			w.Fail(c, "valid-body-rejected", fmt.Sprintf("UnmarshalBinary(%v) (= %d-%d-%d) error %v", want, c.Y, c.M, c.D, err))
@@ -155,7 +162,22 @@ func TestCheck(t *testing.T) {
 	})
 	r.Exhaustive("round-trip and byte layout of every date of years -400..9999")
 
-	years := []int64{2022, 2024, 2000, 1900, 0, 1, -1, -4, -100, -400, 9999, 2147483647, -2147483648, 999999999, -999999999, 65536, 16777216, -16777217}
+	r.Phase("A2: for every year -400..9999: every month x day bytes {0,1,28,29,30,31,32} and months {0,13} (calendar validity at every year's month ends)", func() {
+		r.Parallel(10400, 64, func(w *vkit.W, a, b int64) {
+			for i := a; i < b; i++ {
+				y := i - 400
+				for m := 0; m <= 13; m++ {
+					for _, d := range []int{0, 1, 28, 29, 30, 31, 32} {
+						judge(Case{Kind: "bytes", Data: vkit.B(encode(y, m, d))}, w)
+						w.Eval(true)
+					}
+				}
+			}
+		})
+	})
+	r.Exhaustive("UnmarshalBinary on month-end / out-of-range day bytes for every year -400..9999")
+
+	years := []int64{2100, 1700, 1800, 2200, 2300, 2400, 100, 200, 300, 400, -100, -300, 2022, 2024, 2000, 1900, 0, 1, -1, -4, -100, -400, 9999, 2147483647, -2147483648, 999999999, -999999999, 65536, 16777216, -16777217}
 	{
 		g := r.Rng("years", 0)
 		for len(years) < r.Pick(100, 1000) {
